@@ -180,10 +180,15 @@ bool splinetable<Alloc>::write_key(const char* key, const T& value){
 			new_key=allocate<char>(keylen);
 			new_value=allocate<char>(valuelen);
 		}catch(...){
-			deallocate(new_aux,naux+1);
-			deallocate(new_entry,2);
-			deallocate(new_key,keylen);
-			deallocate(new_value,valuelen);
+			//only what was obtained before the failure goes back to the allocator
+			if(new_aux)
+				deallocate(new_aux,naux+1);
+			if(new_entry)
+				deallocate(new_entry,2);
+			if(new_key)
+				deallocate(new_key,keylen);
+			if(new_value)
+				deallocate(new_value,valuelen);
 			throw std::runtime_error("Unable to allocate storage for additional aux key");
 		}
 		//copy over existing data
@@ -195,7 +200,8 @@ bool splinetable<Alloc>::write_key(const char* key, const T& value){
 		std::copy(key,key+keylen,new_aux[naux][0]);
 		std::copy(valuedata.begin(),valuedata.end(),new_value);
 		*(new_value+valuelen-1)=0;
-		deallocate(aux,naux);
+		if(aux) //an empty store has no array
+			deallocate(aux,naux);
 		aux = new_aux;
 		naux++;
 		return (true);
